@@ -24,6 +24,7 @@ import Wz.Proofs.C15_PollLoop
 import Wz.Proofs.C15_Table
 import Wz.Proofs.C15_Fs2W
 import Wz.Proofs.C15_All
+import Wz.Proofs.C15_W1
 
 namespace Wz.C15
 open Wz.Model Wz.Model.Wasi Wz.Model.DescTable Wz.Gen.Wasi
@@ -565,6 +566,74 @@ theorem all_alloc_bounded (fixed fixedRecv : Bool) (h : Host) (hh : HostNamesOk 
     rw [call1e_alloc fixed h fds m f hf a _ hr]
     omega
   · exact wasi_alloc_bounded fixed fixedRecv h hh fds m hb hs fn h2 a rs hc
+
+/-- one constructor of `Fn1`, for the two statements about where a call writes -/
+macro "fs1_wcase" hc:ident t:term : tactic =>
+  `(tactic| (simp only [call1e] at $hc:ident; split at $hc:ident <;>
+      first | (cases $hc:ident; done)
+            | (simp only [Option.some.injEq] at $hc:ident; subst $hc:ident
+               simp only [designated1e, List.map]; exact $t)))
+
+theorem designated_by_name1 (h : Host) (m : Mem) (f : Fn1) (a : List Nat) :
+    designated h m f.name a = designated1e h m f a := by
+  cases f <;> simp [designated, Fn2.all, Fn2.name, Fn1.all, Fn1.name]
+
+/-- where the first batch writes: inside the memory and inside the designated regions — 19 of its 22 functions.
+Left out: poll_oneoff (writeEvent offsets), fd_read / fd_pread (the iovec entries are read from the live memory
+while earlier buffers are being filled: a buffer that covers a later entry changes where the next write goes, so
+"the regions named by the iovec array at call time" is not what the code honours — see docs). -/
+theorem call1e_writes (fixed : Bool) (h : Host) (ha : HostArgsOk h) (fds : Fds) (m : Mem)
+    (hs : m.size < 9223372036854775808) (f : Fn1)
+    (hf : f ≠ Fn1.poll_oneoff ∧ f ≠ Fn1.fd_read ∧ f ≠ Fn1.fd_pread) (a : List Nat) (r : Res)
+    (hc : call1e fixed h fds m f a = some r) : Wr1 m (designated1e h m f (a.map w32)) r := by
+  cases f
+  case poll_oneoff => exact absurd rfl hf.1
+  case fd_read => exact absurd rfl hf.2.1
+  case fd_pread => exact absurd rfl hf.2.2
+  case fd_write => fs1_wcase hc (fdWrite_wr1 fds m _ _ _ _ (w32_lt _) hs)
+  case fd_pwrite => fs1_wcase hc (fdPwrite_wr1 fds m _ _ _ _ (w32_lt _) hs)
+  case args_get => fs1_wcase hc (writeOffsetsAndValues_wr1 m h.args _ _ ha.1 ha.2.1 (w32_lt _) (w32_lt _) hs)
+  case environ_get => fs1_wcase hc (writeOffsetsAndValues_wr1 m h.env _ _ ha.2.2.1 ha.2.2.2 (w32_lt _) (w32_lt _) hs)
+  case args_sizes_get => fs1_wcase hc (write2xU32_wr1 m _ _ _ _ (w32_lt _) (w32_lt _) hs)
+  case environ_sizes_get => fs1_wcase hc (write2xU32_wr1 m _ _ _ _ (w32_lt _) (w32_lt _) hs)
+  case clock_res_get => fs1_wcase hc (clockResGet_wr1 h m _ _ (w32_lt _) hs)
+  case clock_time_get => fs1_wcase hc (clockTimeGet_wr1 h m _ _ (w32_lt _) hs)
+  case random_get => fs1_wcase hc (randomGet_wr1 m _ _ (w32_lt _) (w32_lt _) hs)
+  case fd_prestat_get => fs1_wcase hc (fdPrestatGet_wr1 h fds m _ _ (w32_lt _) hs)
+  case fd_prestat_dir_name => fs1_wcase hc (fdPrestatDirName_wr1 h fds m _ _ _ (w32_lt _) (w32_lt _) hs)
+  case fd_renumber => fs1_wcase hc (renumber_wr1 _ fds m _ _)
+  case fd_close => fs1_wcase hc (fdClose_wr1 fds m _)
+  case fd_fdstat_get => fs1_wcase hc (statLike_wr1 fds m _ _ 24 (w32_lt _) (by decide) hs)
+  case fd_filestat_get => fs1_wcase hc (statLike_wr1 fds m _ _ 64 (w32_lt _) (by decide) hs)
+  case fd_seek => fs1_wcase hc (seekLike_wr1 fds m _ _ (w32_lt _) hs)
+  case fd_tell => fs1_wcase hc (seekLike_wr1 fds m _ _ (w32_lt _) hs)
+  case proc_exit => fs1_wcase hc (wr1_nil _ _ _ rfl)
+  case sched_yield => fs1_wcase hc (wr1_nil _ _ _ rfl)
+
+/-- **where a call writes, 43 of the 46 functions** (all but poll_oneoff, fd_read, fd_pread; repaired sock_recv):
+every write of every alternative lies inside the memory AND inside the regions `designated` gives for the function
+(the table that mirrors spec.go).  `m.size ≤ 2^32` is the wasm32 limit. -/
+theorem all_writes_in_memory_and_designated (fixed : Bool) (h : Host) (hh : HostNamesOk h) (ha : HostArgsOk h)
+    (fds : Fds) (m : Mem) (hb : Bytes m) (hm : m.size ≤ 4294967296) (fn : String) (hfn : fn ∈ modelled)
+    (hne : fn ≠ "poll_oneoff" ∧ fn ≠ "fd_read" ∧ fn ≠ "fd_pread") (a : List Nat) (rs : List Res)
+    (hc : call fixed true h fds m fn a = some rs) :
+    ∀ r ∈ rs, ∀ w ∈ r.writes, (w.len = 0 ∨ w.off + w.len ≤ m.size) ∧ Wr.within w (designated h m fn (a.map w32)) := by
+  have hs : m.size < 9223372036854775808 := by omega
+  unfold modelled at hfn
+  rcases List.mem_append.1 hfn with h1 | h2
+  · obtain ⟨f, rfl⟩ := modelled1_enumerated fn h1
+    obtain ⟨r, hr, rfl⟩ := call_fn1 fixed true h fds m f a rs hc
+    have hf : f ≠ Fn1.poll_oneoff ∧ f ≠ Fn1.fd_read ∧ f ≠ Fn1.fd_pread := by
+      refine ⟨?_, ?_, ?_⟩ <;> (intro hf; subst hf; simp [Fn1.name] at hne)
+    have := call1e_writes fixed h ha fds m hs f hf a r hr
+    intro r' hr' w hw
+    simp only [List.mem_cons, List.not_mem_nil, or_false] at hr'
+    subst hr'
+    rw [designated_by_name1]
+    exact ⟨this.1 w hw, this.2 w hw⟩
+  · intro r hr w hw
+    exact ⟨wasi_writes_in_memory fixed true h hh fds m hb hs fn h2 a rs hc r hr w hw,
+      wasi_writes_within_designated_by_name fixed h hh fds m hm fn h2 a rs hc r hr w hw⟩
 
 example : modelled.length = 46 ∧ modelled.Nodup := by decide
 example : HostArgsOk { args := [[112, 114, 111, 103], [45, 120]], env := [[65, 61, 98]] } := by
